@@ -235,6 +235,26 @@ def exact_type_checks(ctx, stream, count, rng):
     ctx.streams[stream] = dict(cases=n, deviations=bad)
 
 
+def score_magnitude_check(ctx, stream):
+    """known finding C11-score-materialises: the score family builds one list element per voter"""
+    import votelib.evaluate.cardinal as card
+    prof = [[[[1, 3], [2, 1]], 2], [[[1, 0], [2, 2]], 1]]
+    ctx.evaluations += 1
+    ctx.dist['stream:' + stream] += 1
+    base = common.call_impl(lambda: card.ScoreVoting('sum').evaluate(evalreg.to_python('score', prof), 1), 2)
+    big = common.call_impl(lambda: card.ScoreVoting('sum').evaluate(evalreg.to_python('score', prof, scale=10 ** 9), 1), 1)
+    case = dict(kind='score-magnitude', profile=prof, k=10 ** 9)
+    if big[0] == 'ok' and base[0] == 'ok' and big[1] == base[1]:
+        ctx.notes.append('known finding C11-score-materialises no longer reproduces (score voting answered at 10^9-fold counts)')
+    elif big[0] == 'err' and big[1] in (common.E['TIMEOUT'], common.E['OTHER']):
+        ctx.report(stream, case, str(big[1:]), str(base[1:]), 'score voting gives no answer for 10^9-fold vote counts',
+                   known_class=lambda c, io, mo: 'C11-score-materialises')
+    else:
+        ctx.checker_false += 1
+        ctx.report(stream, case, str(big[1:]), str(base[1:]), 'score voting outcome changes under 10^9-fold scaling')
+    ctx.streams[stream] = dict(cases=1, deviations=0)
+
+
 def corpus():
     import os, json, glob
     for p in sorted(glob.glob(os.path.join(common.VERIF, 'corpus', ID, '*.json'))):
@@ -273,6 +293,7 @@ def explore(ctx, widen=1):
     scale_metamorphic(ctx, 'scale-metamorphic', ctx.n(2500, 40000) * widen, rng)
     near_tie_checks(ctx, 'near-tie', ctx.n(150, 2000), rng)
     exact_type_checks(ctx, 'exact-types', ctx.n(300, 4000), rng)
+    score_magnitude_check(ctx, 'score-magnitude')
 
 
 def replay(ctx, case, stream=None):
